@@ -199,6 +199,59 @@ async def cwd_switch(net, hyg, plan):
         w.cleanup()
 
 
+async def client_reuse(net, hyg, plan):
+    """one Client object, two sessions (quit / close, then connect again - to another server, or as another account with another
+    home): the second session's upload, listing and removal are those of a fresh client"""
+    viol = []
+    mon = {"upload_tree": 0, "download_tree": 0, "recursive_list": 0, "remove_tree": 0, "client_reuse": 1}
+    src = {"/src": DIR, "/src/a": DIR, "/src/a/x.txt": b"x", "/src/a/deep": DIR, "/src/a/deep/y.bin": b"yy", "/src/empty": DIR, "/src/top.txt": b"t"}
+    worlds = []
+    try:
+        c = aioftp.Client(path_io_factory=aioftp.MemoryPathIO)
+        memory_populate(c.path_io.fs, {"/local" + k: v for k, v in src.items()})
+        for life in range(2):
+            w = W.World(net, tree={"/keep.txt": b"k"}, port=2121 + life)
+            worlds.append(w)
+            await w.start()
+            if plan["fallback"] == life + 1:
+                del w.server.commands_mapping["mlsd"]
+                del w.server.commands_mapping["mlst"]
+            await c.connect("127.0.0.1", 2121 + life)
+            await c.login()
+            if plan.get("cwd"):
+                await c.make_directory(plan["cwd"])
+                await c.change_directory(plan["cwd"])
+            try:
+                await c.upload(pathlib.Path("/local/src"), plan["destination"], write_into=plan["write_into"])
+                mon["upload_tree"] += 1
+                want = expect_upload({"/keep.txt": b"k", **({plan["cwd"]: DIR} if plan.get("cwd") else {})}, plan.get("cwd") or "/", "src",
+                                     {k[len("/src/"):]: v for k, v in src.items() if k != "/src"}, False, plan["destination"], plan["write_into"])
+                got = w.tree()
+                if got != want:
+                    extra = sorted(set(got) - set(want))
+                    missing = sorted(set(want) - set(got))
+                    viol.append({"key": f"upload-wrong-in-session-{life + 1}-of-one-client",
+                                 "msg": f"plan {plan}: session {life + 1} of the same Client object: extra {extra[:4]} missing {missing[:4]}"})
+                root = resolve(plan.get("cwd") or "/", plan["destination"] if plan["write_into"] else posixpath.join(plan["destination"], "src"))
+                listed = sorted(str(p_) for p_, _i in await c.list(root, recursive=True))
+                mon["recursive_list"] += 1
+                want_l = sorted(k for k in want if k.startswith(root.rstrip("/") + "/"))
+                if listed != want_l:
+                    viol.append({"key": f"listing-wrong-in-session-{life + 1}-of-one-client",
+                                 "msg": f"plan {plan}: session {life + 1}: recursive list of {root} gives {listed[:5]}, the tree holds {want_l[:5]}"})
+            except Exception as e:
+                viol.append({"key": f"operation-raises-in-session-{life + 1}-of-one-client", "msg": f"plan {plan}: {e!r}"[:300]})
+            try:
+                await c.quit()
+            except Exception:
+                c.close()
+        return viol, mon
+    finally:
+        for w in worlds:
+            await w.stop()
+            w.cleanup()
+
+
 async def after_error(net, hyg, plan):
     """a high-level operation that fails (or is abandoned) half-way leaves nothing in the client that changes what the next
     operation does"""
@@ -301,6 +354,8 @@ async def run_plan(net, hyg, plan):
         return await cwd_switch(net, hyg, plan)
     if plan.get("op") == "after_error":
         return await after_error(net, hyg, plan)
+    if plan.get("op") == "client_reuse":
+        return await client_reuse(net, hyg, plan)
     rng = random.Random(plan["seed"])
     viol = []
     mon = {"upload_tree": 0, "download_tree": 0, "recursive_list": 0, "remove_tree": 0}
@@ -563,6 +618,11 @@ def gen_cases(tier, seed):
                 for fb in (False, True):
                     plans.append({"seed": seed, "op": "cwd_switch", "order": order, "probes": probes, "act": act, "fallback": fb,
                                   "tree": {}, "destination": "", "write_into": False, "cwd": "/" + order[1], "src_is_file": False})
+    for dest, wi in (("up", False), ("up", True), ("/abs/x", False), ("d/e", True)):
+        for fb in (0, 1, 2):
+            for cwd in (None, "/w"):
+                plans.append({"seed": seed, "op": "client_reuse", "destination": dest, "write_into": wi, "fallback": fb, "cwd": cwd, "tree": {},
+                              "src_is_file": False, "src_name": "src"})
     for what in ("list-refused", "list-abandoned", "remove-refused", "upload-twice"):
         for fb in (False, True):
             plans.append({"seed": seed, "op": "after_error", "what": what, "fallback": fb, "tree": {}, "destination": "", "write_into": False,
